@@ -179,6 +179,16 @@ int ops_geo(int n, char **a) {
         free(out); freePolygon(&p);
         return 1;
     }
+    if (isop(op, "polyprims") && n >= 4) {
+        // polyprims <cell> <polygon>
+        H3Error verif_polyprims(const GeoPolygon *polygon, H3Index cell, int out[8]);
+        GeoPolygon p;
+        if (parsePolygon(n, a, 2, &p) < 0 || p.geoloop.numVerts == 0) return 0;
+        int pr[8]; H3Error e = verif_polyprims(&p, pH(a[1]), pr);
+        if (e) outErr(e); else printf("ok %d %d %d %d %d %d %d %d\n", pr[0], pr[1], pr[2], pr[3], pr[4], pr[5], pr[6], pr[7]);
+        freePolygon(&p);
+        return 1;
+    }
     if (isop(op, "multipoly") && n >= 2) {
         int64_t cnt = pI(a[1]);
         if (2 + cnt != n) return 0;
